@@ -361,6 +361,36 @@ def parse_types(chk, facts):
     chk.floor(rule, "schema-directed parse sites and constructor arguments", n, 9)
 
 
+def schema_flow(chk, facts):
+    """Public entry points that take a schema hand that schema to the JSON parser they build (the schema-directed
+    implicit forms are resolved by the parser; a later conformance check cannot re-read the JSON)."""
+    from lib import slice as slc
+    rule = "C10.FLOW.schema"
+    facts.load_crate("cedar_policy.lib")
+    n = 0
+    for name in sorted(facts.fns.keys()):
+        if not name.startswith("cedar_policy::") or "{closure" in name:
+            continue
+        f = facts.fns[name]
+        news = [(b, t) for b, t in f.calls() if callee(t).endswith("::new") and ("entities::EntityJsonParser::<" in callee(t) or "entities::ContextJsonParser::<" in callee(t)
+                                                                                   or "entities::json::entities::EntityJsonParser::<" in callee(t) or "entities::json::context::ContextJsonParser::<" in callee(t))]
+        if not news:
+            continue
+        sparams = [i for i in range(1, f.nargs + 1) if "api::Schema" in f.locals[i]]
+        if not sparams:
+            continue
+        chk.functions.add(f.name)
+        for b, t in news:
+            prod = slc.leaf_producers(f, t[2][0], extra_transparent=("Option::<T>::map", "::transpose"))
+            ok = any("param:%d" % i in prod for i in sparams) and "const" not in prod
+            n += 1
+            chk.ob(rule, "%s@L%s" % (short(f.name), t[1].get("l")), ok,
+                   "%s takes a schema and builds a JSON parser: the parser's schema argument is made of %s (must be the schema parameter)" % (short(f.name), sorted(prod)),
+                   where=f.where(t[1].get("l")), fn=f.name, key="%s:%s" % (rule, short(f.name)),
+                   sample={"fn": short(f.name), "schema_arg": sorted(prod)})
+    chk.floor(rule, "schema-taking JSON entry points", n, 13)
+
+
 def run(chk, facts, tier):
     facts.load_crate("cedar_policy_core.lib")
     chk.explanation = (
@@ -376,3 +406,4 @@ def run(chk, facts, tier):
     entity_fields(chk, facts)
     implicit_forms(chk, facts)
     parse_types(chk, facts)
+    schema_flow(chk, facts)
